@@ -847,7 +847,26 @@ fn record(rep: &mut Report, base: &Base, m: &Mutation, out: &CaseOut) {
         rep.observe("observations", n);
     }
     for (class, (surfaces, why)) in bad {
-        let sig = format!("C11:{}:{class}", m.operator);
+        // how deep into the stack the corrupted history is accepted: a known acceptance by the raw
+        // readers must not hide a regression that lets the trusted host accept it as well
+        let depth = surfaces
+            .iter()
+            .map(|s| match *s {
+                "recover_wal_segment_bytes" => 1,
+                "recover_filesystem_store" | "doctor_filesystem_store" | "FilesystemWalStore::open" | "validate_filesystem_manifest" => 2,
+                "TrustedRuntimeWal::recover_read_only" => 3,
+                "TrustedRuntimeHost::enable_runtime_wal" => 4,
+                _ => 2,
+            })
+            .max()
+            .unwrap_or(0);
+        let reach = match depth {
+            1 => "raw-segment-reader",
+            2 => "filesystem-store",
+            3 => "trusted-wal-read-only",
+            _ => "trusted-host-open",
+        };
+        let sig = format!("C11:{}:{class}:accepted-up-to-{reach}", m.operator);
         rep.violation(
             &sig,
             &format!(
